@@ -257,8 +257,10 @@ class Run(object):
                'has seen no fault of a current connection since (down periods %r)'
                % (c['t'] - T0, addr[0], addr[1], before[-1] - T0, [(round(a - T0, 2), round(b - T0, 2)) for (a, b) in periods]))
         break
-    # reconnection attempts while down: growing gaps, capped
-    for (a, b) in periods:
+    # reconnection attempts while down: growing gaps, capped.  (Not judged in the histories with three or more members: there the
+    # aperture balancer may take a member that is down out of its active set and close its channel, after which nobody is supposed to
+    # reconnect to it until the aperture picks it again; the series is judged where the balancer has to keep the member, n <= 2.)
+    for (a, b) in (periods if p.get('retry_series', True) else []):
       ts = []
       for (t, out) in attempts:
         if a - EPS <= t <= b + EPS:
@@ -404,9 +406,16 @@ def histories(tier):
           out.append({'stack': stack, 'endpoints': 2, 'concurrency': 3, 'reply_delay': 0.9, 'timeout': 2.0025, 'mode': 'refuse',
                       'downs': {'0': da + 0.1, '1': db + 0.1}, 'ups': {'0': ua + 0.0125, '1': ub + 0.5125}, 'down_at': None, 'up_at': None,
                       'horizon': 130})
+    # three members behind the aperture balancer's stock settings (one active member; the jitter timer re-draws the active set every
+    # 120..240 s): the active member goes down, the client is closed minutes later
+    for c in ((150.0, 300.0) if tier == 'quick' else (100.0, 150.0, 200.0, 250.0, 300.0, 400.0, 500.0)):
+      out.append({'stack': stack, 'endpoints': 3, 'down_at': 2.25, 'mode': 'refuse', 'up_at': None, 'close_at': c + 0.0125, 'horizon': c + 140,
+                  'retry_series': False})
+    # the client is closed while a member is down
+    for n in (1, 2):
       for c in ([x * 2.5 for x in range(1, 40)] if tier == 'thorough' else [5.0, 7.5, 12.5, 15.0, 25.0, 27.5, 35.0, 52.5]):
-          out.append({'stack': stack, 'endpoints': n, 'down_at': 2.25, 'mode': 'refuse', 'up_at': None, 'close_at': c + 0.0125, 'horizon': 140})
-          out.append({'stack': stack, 'endpoints': n, 'down_at': 0, 'mode': 'stall', 'up_at': None, 'close_at': c + 0.0125, 'horizon': 140})
+        out.append({'stack': stack, 'endpoints': n, 'down_at': 2.25, 'mode': 'refuse', 'up_at': None, 'close_at': c + 0.0125, 'horizon': 140})
+        out.append({'stack': stack, 'endpoints': n, 'down_at': 0, 'mode': 'stall', 'up_at': None, 'close_at': c + 0.0125, 'horizon': 140})
   return out
 
 
